@@ -166,8 +166,10 @@ def kaldi_filters(ctx, R="R-C15-kaldi-filters"):
     ctx.check(r["verdict"] == "equal", R, init, init.node, "the base filter is (k - W) / sum_k (k - W)^2 for k = 0..2W",
               "base delta filter is %s" % S.show(base)[:160])
     loops = [n for n in init.body_nodes() if isinstance(n, ast.For)]
+    # the list holds one filter before the loop and gains one per round, so in round d the last one is filter d: [-1] is [d]
+    idx_forms = [loops[0].target.id, "-1", "len(self._filts)-1"] if len(loops) == 1 and isinstance(loops[0].target, ast.Name) else []
     ok = len(loops) == 1 and astq.text(loops[0].iter) == "range(num_deltas)" and len(loops[0].body) == 1 and \
-        astq.text(loops[0].body[0]).replace(" ", "") == "self._filts.append(np.convolve(self._filts[%s],delta_filter))" % loops[0].target.id
+        astq.text(loops[0].body[0]).replace(" ", "") in ["self._filts.append(np.convolve(self._filts[%s],delta_filter))" % i_ for i_ in idx_forms]
     ctx.check(ok, R, init, loops[0] if loops else MISSING(init.node), "filter d+1 = convolve(filter d, base), num_deltas times (Kaldi's recursion)",
               "filter recursion is %s" % (astq.text(loops[0])[:120] if loops else None))
 
